@@ -18,10 +18,11 @@ import DSymVerif.Proofs.EchelonI64
 import DSymVerif.Proofs.EchelonField
 import DSymVerif.Proofs.Routines
 import DSymVerif.Proofs.RatRec
+import DSymVerif.Proofs.Instances
 
 namespace DSymVerif.C18
 
-open DSymVerif DSymVerif.LA
+open DSymVerif DSymVerif.LA Matrix
 
 /-! ### prime residue classes -/
 
@@ -234,6 +235,243 @@ theorem no_panic_square_prc (p : ℕ) (hp : p.Prime) (hpm : (p : ℤ) ≤ PRC.ma
     (∃ d, determinant (prcBackend p) (Mat.map (PRC.fromI64 p) a) = .ok d) ∧
     inverse (prcBackend p) (Mat.map (PRC.fromI64 p) a) ≠ .panic :=
   square_np (prc_safe hp hpm) _ (allE_canon_map hp.pos a)
+
+/-! ### Phase 2 — meaning in Mathlib's `Matrix`
+
+`toMatrix val m : Matrix (Fin nr) (Fin nc) R` is the Mathlib matrix of a model matrix under a
+value map: `valI : ℤ → ℚ` (the cast; `toMatrixZ` is the integer matrix itself),
+`valQ : Q → ℚ` (`num/den`, on well-formed values `QWF`: positive denominator),
+`valP p : ℤ → ZMod p` (on canonical values `Canon p`).  All proofs are instances of generic
+ones over `Sem B E val` (Proofs/EchelonSem, SolveSem, RankDet, NullSem). -/
+
+/-! #### (1) echelon_invariant -/
+
+/-- machine integers: `multiplier · input = result` (over ℤ), the multiplier is unimodular
+    with determinant `(-1)^nr_swaps`, `result` is in row-echelon form with pivot columns
+    `columns[0..rank)` strictly increasing, zeros left of each pivot, rows `≥ rank` zero -/
+theorem echelon_invariant_i64 {nr nc : Nat} (m : Mat Int nr nc) :
+    ∃ re, echelon (i64Backend .ok) true m = .ok re ∧
+      toMatrixZ re.multiplier * toMatrixZ m = toMatrixZ re.result ∧
+      (toMatrixZ re.multiplier).det = (-1) ^ re.nrSwaps ∧
+      IsEchelon valI re.result re.rank re.columns := by
+  obtain ⟨re, h, _, _, hprod, hdet, hech⟩ := echelon_sem i64_sem m (allE_true m)
+  refine ⟨re, h, toMatrixZ_mul_eq hprod, ?_, hech⟩
+  rw [toMatrixZ_det] at hdet
+  exact_mod_cast hdet
+
+theorem echelon_invariant_rat {nr nc : Nat} (m : Mat Q nr nc) (hm : AllE QWF m) :
+    ∃ re, echelon ratBackend true m = .ok re ∧
+      toMatrix valQ re.multiplier * toMatrix valQ m = toMatrix valQ re.result ∧
+      (toMatrix valQ re.multiplier).det = (-1) ^ re.nrSwaps ∧
+      IsEchelon valQ re.result re.rank re.columns := by
+  obtain ⟨re, h, _, _, hprod, hdet, hech⟩ := echelon_sem rat_sem m hm
+  exact ⟨re, h, hprod, hdet, hech⟩
+
+example : AllE QWF (Mat.map Q.ofInt (#v[#v[1, 0]] : Mat Int 1 2)) := allE_ofInt _
+
+theorem echelon_invariant_prc (p : ℕ) [Fact p.Prime] (hpm : (p : ℤ) ≤ PRC.maxP) {nr nc : Nat}
+    (m : Mat Int nr nc) (hm : AllE (Canon p) m) :
+    ∃ re, echelon (prcBackend p) true m = .ok re ∧
+      toMatrix (valP p) re.multiplier * toMatrix (valP p) m = toMatrix (valP p) re.result ∧
+      (toMatrix (valP p) re.multiplier).det = (-1) ^ re.nrSwaps ∧
+      IsEchelon (valP p) re.result re.rank re.columns := by
+  obtain ⟨re, h, _, _, hprod, hdet, hech⟩ := echelon_sem (prc_sem hpm) m hm
+  exact ⟨re, h, hprod, hdet, hech⟩
+
+/-! #### (2) solve_sound, solve_complete, inverse -/
+
+/-- machine integers: a returned `x` satisfies `A·x = b` exactly (over ℤ) -/
+theorem solve_sound_i64 {nr nc k : Nat} (a : Mat Int nr nc) (b : Mat Int nr k) (x : Mat Int nc k)
+    (h : solve (i64Backend .ok) a b = .ok x) : toMatrixZ a * toMatrixZ x = toMatrixZ b :=
+  toMatrixZ_mul_eq (solve_sound i64_sem a b (allE_true a) (allE_true b) x h)
+
+/-- machine integers: `None` means the system is inconsistent over ℚ, or `can_divide` refused
+    a non-zero divisor (the property demands completeness only over a field) -/
+theorem solve_none_i64 {nr nc k : Nat} (a : Mat Int nr nc) (b : Mat Int nr k)
+    (h : solve (i64Backend .ok) a b = .err) :
+    (∀ X : Matrix (Fin nc) (Fin k) ℚ, toMatrix valI a * X ≠ toMatrix valI b) ∨
+      CanDivideRefused (i64Backend .ok) TrueP valI :=
+  solve_err i64_sem a b (allE_true a) (allE_true b) h
+
+theorem solve_sound_rat {nr nc k : Nat} (a : Mat Q nr nc) (b : Mat Q nr k) (ha : AllE QWF a)
+    (hb : AllE QWF b) (x : Mat Q nc k) (h : solve ratBackend a b = .ok x) :
+    toMatrix valQ a * toMatrix valQ x = toMatrix valQ b :=
+  solve_sound rat_sem a b ha hb x h
+
+/-- over ℚ `solve` returns a solution whenever the system is consistent -/
+theorem solve_complete_rat {nr nc k : Nat} (a : Mat Q nr nc) (b : Mat Q nr k) (ha : AllE QWF a)
+    (hb : AllE QWF b) (h : solve ratBackend a b = .err) :
+    ∀ X : Matrix (Fin nc) (Fin k) ℚ, toMatrix valQ a * X ≠ toMatrix valQ b := by
+  rcases solve_err rat_sem a b ha hb h with h1 | h1
+  · exact h1
+  · exact absurd h1 rat_not_refused
+
+theorem solve_sound_prc (p : ℕ) [Fact p.Prime] (hpm : (p : ℤ) ≤ PRC.maxP) {nr nc k : Nat}
+    (a : Mat Int nr nc) (b : Mat Int nr k) (ha : AllE (Canon p) a) (hb : AllE (Canon p) b)
+    (x : Mat Int nc k) (h : solve (prcBackend p) a b = .ok x) :
+    toMatrix (valP p) a * toMatrix (valP p) x = toMatrix (valP p) b :=
+  solve_sound (prc_sem hpm) a b ha hb x h
+
+/-- over `ZMod p` `solve` returns a solution whenever the system is consistent -/
+theorem solve_complete_prc (p : ℕ) [Fact p.Prime] (hpm : (p : ℤ) ≤ PRC.maxP) {nr nc k : Nat}
+    (a : Mat Int nr nc) (b : Mat Int nr k) (ha : AllE (Canon p) a) (hb : AllE (Canon p) b)
+    (h : solve (prcBackend p) a b = .err) :
+    ∀ X : Matrix (Fin nc) (Fin k) (ZMod p), toMatrix (valP p) a * X ≠ toMatrix (valP p) b := by
+  rcases solve_err (prc_sem hpm) a b ha hb h with h1 | h1
+  · exact h1
+  · exact absurd h1 (prc_not_refused hpm)
+
+/-- machine integers: a returned inverse is a right inverse over ℤ -/
+theorem inverse_sound_i64 {n : Nat} (a : Mat Int n n) (x : Mat Int n n)
+    (h : inverse (i64Backend .ok) a = .ok x) : toMatrixZ a * toMatrixZ x = 1 := by
+  rcases inverse_sem i64_sem a (allE_true a) with ⟨x', h', _, hx'⟩ | ⟨h', _⟩
+  · rw [h] at h'
+    have : x = x' := Outcome.ok.inj h'
+    subst this
+    have h1 : toMatrix valI a * toMatrix valI x = (1 : Matrix (Fin n) (Fin n) ℤ).map (Int.castRingHom ℚ) := by
+      rw [hx']; ext i j; simp [Matrix.one_apply]
+    rw [toMatrix_valI, toMatrix_valI, ← Matrix.map_mul] at h1
+    exact Matrix.map_injective (Int.cast_injective (α := ℚ)) h1
+  · rw [h] at h'; cases h'
+
+/-- generic: over a field without refusals `inverse` returns `Some` iff the rank is `n` -/
+theorem inverse_iff_of_field {α : Type} {B : Backend α} {E : α → Prop} {R : Type} [Field R]
+    {val : α → R} (hs : Sem B E val) (hnr : ¬ CanDivideRefused B E val) {n : Nat} (a : Mat α n n)
+    (ha : AllE E a) :
+    (∀ x, inverse B a = .ok x → toMatrix val a * toMatrix val x = 1) ∧
+    ((∃ x, inverse B a = .ok x) ↔ rank B a = .ok n) := by
+  obtain ⟨r, hr, hrk⟩ := rank_sem hs a ha
+  constructor
+  · intro x h
+    rcases inverse_sem hs a ha with ⟨x', h', _, hx'⟩ | ⟨h', _⟩
+    · rw [h] at h'
+      have : x = x' := Outcome.ok.inj h'
+      subst this; exact hx'
+    · rw [h] at h'; cases h'
+  · constructor
+    · rintro ⟨x, h⟩
+      rcases inverse_sem hs a ha with ⟨x', _, _, hx'⟩ | ⟨h', _⟩
+      · have hu : IsUnit (toMatrix val a) :=
+          (Matrix.isUnit_iff_isUnit_det _).2 (Matrix.isUnit_det_of_right_inverse hx')
+        have := Matrix.rank_of_isUnit _ hu
+        rw [Fintype.card_fin] at this
+        rw [hr, hrk, this]
+      · rw [h] at h'; cases h'
+    · intro h
+      rw [hr] at h
+      have hrn : r = n := Outcome.ok.inj h
+      rcases inverse_sem hs a ha with ⟨x', h', _, _⟩ | ⟨_, h'⟩
+      · exact ⟨x', h'⟩
+      · exfalso
+        rcases h' with h' | h'
+        · obtain ⟨X, hX⟩ := exists_right_inverse_of_rank (toMatrix val a) (by rw [← hrk, hrn])
+          exact h' X hX
+        · exact hnr h'
+
+/-- `BigRational`: a returned inverse is a right inverse, and `inverse` returns `Some`
+    exactly when the matrix has full rank -/
+theorem inverse_iff_rat {n : Nat} (a : Mat Q n n) (ha : AllE QWF a) :
+    (∀ x, inverse ratBackend a = .ok x → toMatrix valQ a * toMatrix valQ x = 1) ∧
+    ((∃ x, inverse ratBackend a = .ok x) ↔ rank ratBackend a = .ok n) :=
+  inverse_iff_of_field rat_sem rat_not_refused a ha
+
+theorem inverse_iff_prc (p : ℕ) [Fact p.Prime] (hpm : (p : ℤ) ≤ PRC.maxP) {n : Nat}
+    (a : Mat Int n n) (ha : AllE (Canon p) a) :
+    (∀ x, inverse (prcBackend p) a = .ok x →
+      toMatrix (valP p) a * toMatrix (valP p) x = 1) ∧
+    ((∃ x, inverse (prcBackend p) a = .ok x) ↔ rank (prcBackend p) a = .ok n) :=
+  inverse_iff_of_field (prc_sem hpm) (prc_not_refused hpm) a ha
+
+/-! #### (3) rank_eq, determinant_eq, null space -/
+
+/-- machine integers: the model's rank is the rank over ℚ -/
+theorem rank_eq_i64 {nr nc : Nat} (a : Mat Int nr nc) :
+    ∃ r, rank (i64Backend .ok) a = .ok r ∧ r = (toMatrix valI a).rank :=
+  rank_sem i64_sem a (allE_true a)
+
+theorem rank_eq_rat {nr nc : Nat} (a : Mat Q nr nc) (ha : AllE QWF a) :
+    ∃ r, rank ratBackend a = .ok r ∧ r = (toMatrix valQ a).rank :=
+  rank_sem rat_sem a ha
+
+theorem rank_eq_prc (p : ℕ) [Fact p.Prime] (hpm : (p : ℤ) ≤ PRC.maxP) {nr nc : Nat}
+    (a : Mat Int nr nc) (ha : AllE (Canon p) a) :
+    ∃ r, rank (prcBackend p) a = .ok r ∧ r = (toMatrix (valP p) a).rank :=
+  rank_sem (prc_sem hpm) a ha
+
+/-- machine integers: the model's determinant is the integer determinant -/
+theorem determinant_eq_i64 {n : Nat} (a : Mat Int n n) :
+    ∃ d, determinant (i64Backend .ok) a = .ok d ∧ d = (toMatrixZ a).det := by
+  obtain ⟨d, h, _, hd⟩ := determinant_sem i64_sem a (allE_true a)
+  refine ⟨d, h, ?_⟩
+  rw [toMatrixZ_det] at hd
+  unfold valI at hd
+  exact_mod_cast hd
+
+theorem determinant_eq_rat {n : Nat} (a : Mat Q n n) (ha : AllE QWF a) :
+    ∃ d, determinant ratBackend a = .ok d ∧ QWF d ∧ valQ d = (toMatrix valQ a).det :=
+  determinant_sem rat_sem a ha
+
+theorem determinant_eq_prc (p : ℕ) [Fact p.Prime] (hpm : (p : ℤ) ≤ PRC.maxP) {n : Nat}
+    (a : Mat Int n n) (ha : AllE (Canon p) a) :
+    ∃ d, determinant (prcBackend p) a = .ok d ∧ Canon p d ∧
+      valP p d = (toMatrix (valP p) a).det :=
+  determinant_sem (prc_sem hpm) a ha
+
+/-- null space, all three back-ends at once (`hs` is `i64_sem`, `rat_sem` or `prc_sem`, see
+    `sem_instances`): `null_space_matrix` returns the `nc × (nc − rank A)` matrix whose
+    entry `(i, j)` is `s[i][rank + j]`; as a Mathlib matrix `N` it satisfies `A·N = 0` and its
+    columns are linearly independent; `null_space` returns the same columns one by one -/
+theorem null_space_spec {α : Type} {B : Backend α} {E : α → Prop} {R : Type} [Field R]
+    {val : α → R} (hs : Sem B E val) {nr nc : Nat} (a : Mat α nr nc) (ha : AllE E a) :
+    ∃ (r : Nat) (_ : r ≤ nc) (s : Mat α nc nc),
+      nullSpaceMatrix B a = .ok ((List.range nc).map fun i =>
+        ((List.range nc).drop r).map fun j => entryD s B.zero i j) ∧
+      nullSpace B a = .ok (((List.range nc).drop r).map fun j =>
+        (List.range nc).map fun i => [entryD s B.zero i j]) ∧
+      r = (toMatrix val a).rank ∧
+      (toMatrix val a * Matrix.of (fun (l : Fin nc) (j : Fin (nc - r)) =>
+        val ((s[l.1])[r + j.1]'(by have := j.2; omega))) = 0) ∧
+      LinearIndependent R (fun (j : Fin (nc - r)) (l : Fin nc) =>
+        val ((s[l.1])[r + j.1]'(by have := j.2; omega))) := by
+  -- both routines run the same elimination: same `r`, same `s`
+  obtain ⟨mt, re, s0, e1, e2, e3, _⟩ := nullCore_sem hs a ha
+  have hns : nullSpace B a = .ok (((List.range nc).drop re.rank).map fun j =>
+      (List.range nc).map fun i => [entryD s0 B.zero i j]) := by
+    unfold nullSpace
+    rw [e1]; simp only [bind_ok]
+    rw [e2]; simp only [bind_ok]
+    rw [e3]; simp only [bind_ok]
+    apply mapO_map
+    intro j hj
+    rw [submatrix_eq s0 B.zero _ _ (fun i hi => by simpa using hi)
+      (fun j' hj' => by
+        simp only [List.mem_singleton] at hj'
+        subst hj'; exact mem_drop_range hj)]
+    rfl
+  have hnm : nullSpaceMatrix B a = .ok ((List.range nc).map fun i =>
+      ((List.range nc).drop re.rank).map fun j => entryD s0 B.zero i j) := by
+    unfold nullSpaceMatrix
+    rw [e1]; simp only [bind_ok]
+    rw [e2]; simp only [bind_ok]
+    rw [e3]; simp only [bind_ok]
+    exact submatrix_eq s0 B.zero _ _ (fun i hi => by simpa using hi) (fun j hj => mem_drop_range hj)
+  obtain ⟨mt', re', s0', e1', e2', e3', hrank, hle, hzero, hli⟩ := nullCore_sem hs a ha
+  have hmt : mt = mt' := Outcome.ok.inj (e1.symm.trans e1')
+  subst hmt
+  have hre : re = re' := Outcome.ok.inj (e2.symm.trans e2')
+  subst hre
+  have hs0 : s0 = s0' := Outcome.ok.inj (e3.symm.trans e3')
+  subst hs0
+  refine ⟨re.rank, hle, s0, hnm, hns, hrank, ?_, hli⟩
+  ext i j
+  rw [Matrix.mul_apply, Matrix.zero_apply]
+  exact hzero (re.rank + j.1) (by have := j.2; omega) (by omega) i
+
+/-- the three exact back-ends satisfy the hypotheses of the generic theorems -/
+theorem sem_instances (p : ℕ) [Fact p.Prime] (hpm : (p : ℤ) ≤ PRC.maxP) :
+    Sem (i64Backend .ok) TrueP valI ∧ Sem ratBackend QWF valQ ∧
+      Sem (prcBackend p) (Canon p) (valP p) :=
+  ⟨i64_sem, rat_sem, prc_sem hpm⟩
 
 /-! ### modular solver -/
 
